@@ -44,6 +44,9 @@ func init() {
 			p.Blocks, p.MaxTxs = *blocks, *maxtx
 			p.BusyFirstBlock = i%8 == 7
 			p.Queries, p.PRestart = *queries, *prestart
+			if *evm {
+				p.W["contract"] = 7
+			}
 			if *boundary {
 				g, na = appdrv.BoundaryFamily(s)
 				p.Boundary = true
